@@ -68,6 +68,41 @@ def rule_table(ctx, f):
             heads = [h for h, blk in loops.items() if swbb in blk]
             t = b["blocks"][swbb]["term"]
             arms = {a[0]: a[1] for a in t["arms"]}
+            # every entry of the section gets to this decision: inside the merge loop the only way around the switch on the existing entry is
+            # the `None` outcome of the bounded look-up of the slot (an entry beyond /Size).  A test of the INCOMING entry that skips some
+            # entries (say, free ones) before the slot is looked at changes which revision wins
+            for h in heads:
+                body = loops[h]
+                none_arms = set()
+                for gi, gt in F.calls(b):
+                    if gi in body and last_seg(F.callee_name(gt)) in ("get_mut", "get") and gt.get("target") is not None:
+                        gsw = b["blocks"][gt["target"]]["term"]
+                        if gsw["k"] == "switch":
+                            none_arms |= {a[1] for a in gsw["arms"] if a[0] == 0}
+                            if not [a for a in gsw["arms"] if a[0] == 0]:
+                                none_arms.add(gsw.get("otherwise"))
+                # the iterator's `Some` arm: successors of the switch in the header chain that stay in the loop
+                backs = [a for a, hh in cfg.back_edges() if hh == h]
+                seen = set()
+                st = [h]
+                bypass = False
+                while st:
+                    x = st.pop()
+                    if x in seen or x == swbb or x in none_arms:
+                        continue
+                    seen.add(x)
+                    if x in backs and x != h:
+                        bypass = True
+                        break
+                    for y in cfg.succ[x]:
+                        if y in body and y != h:
+                            st.append(y)
+                        elif y == h and x != h:
+                            bypass = True
+                ctx.check(not bypass, "C02-TABLE", "%s#every-entry-decided" % b["id"], "an iteration of the merge loop can go on to the next entry without reaching the "
+                          "decision on the existing entry (and not because the slot lies beyond the table): some incoming entries - e.g. free ones - are "
+                          "dropped before precedence is applied, so an older revision of the object shows through", b["blocks"][swbb]["term"]["span"],
+                          detail="only `entries.get_mut(i) == None` skips an entry")
             for vi, vname in sorted(vs.items()):
                 start = arms.get(vi, t["otherwise"])
 
@@ -307,6 +342,30 @@ def rule_typebytes(ctx, f):
                 ctx.bad("C02-SIB", b["id"] + "#reads", "expected 3 field reads, found %d" % len(order), b["span"])
                 continue
             idx = {c[0]: k for k, c in enumerate(order)}
+            # field k is read with the k-th width of /W
+            rfl = Flow(b)
+
+            def width_index(op, depth=0):
+                l = F.op_local(op)
+                if l is None or depth > 5:
+                    return None
+                ds = rfl.defs.get(l, [])
+                if len(ds) != 1 or ds[0][0] != "assign" or ds[0][2][0] != "use":
+                    return None
+                pl = F.op_place(ds[0][2][1])
+                if pl is None:
+                    return None
+                ci = [e for e in pl[1:] if e[0] == "cindex"]
+                if ci:
+                    return ci[0][1]
+                idxs = [e for e in pl[1:] if e[0] == "index"]
+                if idxs:
+                    return None
+                return width_index(ds[0][2][1], depth + 1) if len(pl) == 1 else None
+            for k, c in enumerate(order):
+                wi = width_index(c[1]["args"][0])
+                ctx.check(wi == k, "C02-SIB", b["id"] + "#width-%d" % k, "field %d of an xref-stream entry is read with width W[%s]: with unequal widths the field and "
+                          "everything after it is cut at the wrong bytes" % (k + 1, wi), c[1]["span"], detail="field %d <- W[%d] bytes" % (k + 1, k))
             expect = {0: ("Free", ["next_obj_nr", "gen_nr"]), 1: ("Raw", ["pos", "gen_nr"]), 2: ("Stream", ["stream_id", "index"])}
             # switch whose arms lead to the aggregates
             found = {}
